@@ -775,6 +775,23 @@ theorem tie_reshape_widths (it : Item) :
     scoord3dValue it = (graphicData it).map (fun l => chunk Gen.scoord3dReshapeWidth l.length l) :=
   ⟨SRItemsTie.scoordValue_width it, SRItemsTie.scoord3dValue_width it⟩
 
+/-- **Nested-content tie — an item OWNS its content**: `item.ContentSequence = children` is what the current
+`ContentItem.__setattr__` says (T14v): the only statement of that branch builds a NEW `ContentSequence` from the children
+(`Gen.csAttachRebuilds`; flags `Gen.csAttachFlags`) — whether a list, a pydicom `Sequence`, a `ContentSequence` or another
+item's content is assigned — so the item's content is a value of its own: the model's `setContent` takes the children by
+value and nothing the caller keeps a handle on is inside the item.  (Seeded change R6C13-1 stored an assigned
+`ContentSequence` itself: regeneration of T14v fails on it.)  Correspondence: oracle sites `ownership/*` of
+`harness/corr/C13.py` — the caller mutates the container it assigned (append / delete / replace / reverse / clear)
+afterwards; the item must report and write the content it was given. -/
+theorem tie_nested_content_is_rebuilt (it : Item) (children : List Item) :
+    Gen.csAttachRebuilds = true ∧ setContent it children = SRItemsTie.setContentGen it children ∧
+    (∀ it', setContent it children = .ok it' → it' = .mk it.cls it.attrs (some children)) := by
+  refine ⟨rfl, SRItemsTie.setContent_eq_gen it children, fun it' h => ?_⟩
+  unfold setContent at h
+  split at h
+  · cases h
+  · cases h; rfl
+
 /-- the three parsing entry points give the item back, and the 14 other classes refuse it -/
 def RoundTrips (it : Item) (c : Cls) : Prop :=
   it.cls = c ∧ parse (serialise it) = .ok it ∧ parseAs c (serialise it) = .ok it ∧
@@ -1182,5 +1199,10 @@ example : tcoordValueGen (.mk .tcoord [("ReferencedDateTime", .strs ["20200102"]
     = some (.positions [7]) := by decide +kernel
 example : numsReadGen Gen.imageFramesRead (some [7]) = .ok (some [7]) ∧ numsReadGen Gen.imageFramesRead (some [7, 8]) = .ok (some [7, 8]) ∧
     numsReadGen Gen.imageFramesRead none = .ok none := by decide +kernel
+/-- the nested-content tie on concrete data: the setter's flags are those of a non-root SR sequence, a child without
+relationship type is refused, a child with one is taken by value -/
+example : Gen.csAttachFlags = (false, true) ∧ Gen.csAttachRebuilds = true := ⟨rfl, rfl⟩
+example (c t : Item) (ht : mkText nm "abc" (some "CONTAINS") = .ok t) (it : Item) (h : setContent c [t] = .ok it) :
+    it = .mk c.cls c.attrs (some [t]) := (tie_nested_content_is_rebuilt c [t]).2.2 it h
 
 end HdVerif.C13
